@@ -327,6 +327,11 @@ unsafe fn write_all_sub_paths(
     raw: *const u8,
 ) -> core::result::Result<(), rusl::Error> {
     let len = buf.len();
+    // Walk backwards to find the deepest ancestor that exists or can be created,
+    // everything after the slash at `created_up_to` still has to be created.
+    // If there is no such ancestor (no slash at all, or nothing on the way exists)
+    // every component is created front to back.
+    let mut created_up_to = 0;
     let mut it = 1;
     loop {
         // Iterate down
@@ -334,63 +339,67 @@ unsafe fn write_all_sub_paths(
         if ind == 0 {
             break;
         }
-
-        let byte = buf[ind];
-        if byte == b'/' {
+        if buf[ind] == b'/' {
             // Swap slash for null termination to make a valid path
             buf[ind] = NULL_BYTE;
-
-            return match rusl::unistd::mkdir(
+            let res = rusl::unistd::mkdir(
                 UnixStr::from_bytes_unchecked(&buf[..=ind]),
                 Mode::from(0o755),
-            ) {
-                // Successfully wrote, traverse down
+            );
+            // Put slash back
+            buf[ind] = b'/';
+            match res {
+                // Created or already there, continue downwards from here
                 Ok(()) => {
-                    // Replace the null byte to make a valid path concatenation
-                    buf[ind] = b'/';
-                    for i in ind + 1..len {
-                        // Found next
-                        if buf[i] == b'/' {
-                            // Swap slash for null termination to make a valid path
-                            buf[i] = NULL_BYTE;
-                            rusl::unistd::mkdir(
-                                UnixStr::from_bytes_unchecked(&buf[..=i]),
-                                Mode::from(0o755),
-                            )?;
-                            // Swap back to continue down
-                            buf[i] = b'/';
-                        }
-                    }
-                    // if we end on a slash we don't have to write the last part
-                    if unsafe { raw.add(len - 1).read() } == b'/' {
-                        return Ok(());
-                    }
-                    // We know the actual length is len + 1 and null terminated, try write full
-                    rusl::unistd::mkdir(
-                        UnixStr::from_bytes_unchecked(core::slice::from_raw_parts(raw, len + 1)),
-                        Mode::from(0o755),
-                    )?;
-                    Ok(())
+                    created_up_to = ind;
+                    break;
                 }
-                Err(e) => {
-                    if let Some(code) = e.code {
-                        if code == Errno::ENOENT {
-                            it += 1;
-                            // Put slash back, only way we end up here is if we tried to write
-                            // previously replacing the slash with a null-byte
-                            buf[ind] = b'/';
-                            continue;
-                        } else if code == Errno::EEXIST {
-                            return Ok(());
-                        }
-                    }
-                    Err(e)
+                Err(e) if e.code == Some(Errno::EEXIST) => {
+                    created_up_to = ind;
+                    break;
                 }
-            };
+                // The parent of this one is missing too, keep going up
+                Err(e) if e.code == Some(Errno::ENOENT) => {}
+                Err(e) => return Err(e),
+            }
         }
         it += 1;
     }
-    Ok(())
+    for i in created_up_to + 1..len {
+        // Found next
+        if buf[i] == b'/' {
+            // Swap slash for null termination to make a valid path
+            buf[i] = NULL_BYTE;
+            let res = rusl::unistd::mkdir(
+                UnixStr::from_bytes_unchecked(&buf[..=i]),
+                Mode::from(0o755),
+            );
+            // Swap back to continue down
+            buf[i] = b'/';
+            match res {
+                Ok(()) => {}
+                // Already there (or a repeated slash), if it's not a directory the next one fails
+                Err(e) if e.code == Some(Errno::EEXIST) => {}
+                Err(e) => return Err(e),
+            }
+        }
+    }
+    // We know the actual length is len + 1 and null terminated, write the full path,
+    // a trailing slash is fine for `mkdir`
+    let full = UnixStr::from_bytes_unchecked(core::slice::from_raw_parts(raw, len + 1));
+    match rusl::unistd::mkdir(full, Mode::from(0o755)) {
+        Ok(()) => Ok(()),
+        Err(e) if e.code == Some(Errno::EEXIST) => {
+            // Only a success if what's there is a directory
+            let stat = rusl::unistd::stat(full)?;
+            if Mode::from(stat.st_mode) & Mode::S_IFMT == Mode::S_IFDIR {
+                Ok(())
+            } else {
+                Err(e)
+            }
+        }
+        Err(e) => Err(e),
+    }
 }
 
 pub struct Directory(OwnedFd);
